@@ -2,6 +2,8 @@
 
 from __future__ import annotations
 
+from collections import deque
+
 from aiomysensors.exceptions import AIOMySensorsError, InvalidMessageError
 from aiomysensors.model.message import Message
 
@@ -170,6 +172,25 @@ def check_sequence(version: str, seq: list, buf, dest: str) -> list:
             elif w.writes.count(line) != 1:
                 viols.append((f"C12|seq|buffer={buf}|dest={dest}|silently-discarded", f"[{version}] sends {seq}: held {line!r} was written {w.writes.count(line)} times at the next wake ({w.writes})",
                               {"version": version, "seq": [list(x) for x in seq], "buffer": buf, "dest": dest}))
+        # eleventh wave: a transport write fails during that wake, at each position of the release. "Handed to the
+        # transport at that node's next wake" has then happened for the lines whose write was attempted; every other
+        # held line is still held (C08) and must be handed over at the wake after that - never silently dropped.
+        if len(last_per_key) >= 2 and R.is2x(version) and not viols:
+            for k in range(len(last_per_key)):
+                s2 = build(version, dest)
+                for f in seq:
+                    s2.send(Message(*f), buf)
+                s2.transport.fail_plan = deque([False] * k + [True])
+                wt = R.wake_type(version)
+                o1 = s2.line(f"{NODE};255;3;0;{wt};0")
+                s2.transport.fail_plan = None
+                o2 = s2.line(f"{NODE};255;3;0;{wt};0")
+                offered = [a[0] for a in o1.attempts] + [a[0] for a in o2.attempts]
+                for key, line in last_per_key.items():
+                    if line not in offered:
+                        viols.append((f"C12|seq|buffer={buf}|dest={dest}|silently-discarded-after-write-fault",
+                                      f"[{version}] sends {seq}: held {line!r} was never handed to the transport in the two wakes after them, of which the first had write #{k} fail (attempts {o1.attempts} then {o2.attempts})",
+                                      {"version": version, "seq": [list(x) for x in seq], "buffer": buf, "dest": dest}))
     return viols
 
 
